@@ -5,7 +5,13 @@
 // fills the operands (canonical residues, boundary biased, from VERIF_SEED), snapshots every handle before and
 // after and prints the protocol line
 //   asg   <w> <be> <nmod> <deg> <form> <dest> <L> <tree:L ints> <nh> <nh*N words>  =>  <mode> <rows*N words>
+//   asgx  <w> <be> <nmod> <deg> <form> <dest> <mode> <L> <tree:L ints> <nh> <nh*N words> =>  <rows*N words>
+//     the same statement for a shape OUTSIDE the acceptance rules of tools/gen_expr.py that the compiler accepts after all
+//     (tools/exprcheck.py execute_new_shapes): no mode is predicted for it, the mode the compiler resolved is an argument;
+//     the stores are compared with the exact coefficient-wise meaning and with the width-1 assignment loop of the model
 //   ebool <w> <be> <nmod> <deg> <kind> <L> <tree:L ints> <nh> <nh*N words>         =>  <mode> <0|1>
+//   eboolx <w> <be> <nmod> <deg> <kind> <mode> <L> <tree:L ints> <nh> <nh*N words>  =>  <0|1>
+//     a boolean conversion of a comparison shape outside the acceptance rules that the compiler accepts after all (as asgx)
 //   pbool <w> <be> <nmod> <deg> <h> <nh> <words>                                   =>  <0|1>
 //   ppeq / ppne <w> <be> <nmod> <deg> <ha> <hb> <nh> <words>                       =>  <0|1>
 //   bsweep <w> <be> <nmod> <deg> <fam> <pat> <t> <L> <tree:L ints> <nh> <nh*N words> <N alt words> <np> <np positions>
@@ -21,6 +27,7 @@
 #include "common.hpp"
 #include <nfl.hpp>
 #include <functional>
+#include <type_traits>
 
 namespace xr {
 using namespace vh;
@@ -40,6 +47,11 @@ template <class T> inline T rsub(size_t cm, T x, T y) { T p = modp<T>(cm); retur
 template <class T> inline T rmul(size_t cm, T x, T y) { return (T)(((u128)x * y) % modp<T>(cm)); }
 template <class T> inline T rquot(size_t cm, T y) { T p = modp<T>(cm); return (T)((((u128)(y % p)) << bits<T>()) / p); }
 
+// `X::simd_mode::mode` when the type of an expression has one, 0 otherwise (an overload that evaluates eagerly and returns a
+// plain bool / value: no mode is observable; only used for the `asgx` / `eboolx` lines, whose mode is an argument)
+template <class X, class = void> struct mode_of_type { static constexpr int value = 0; };
+template <class X> struct mode_of_type<X, std::void_t<typename X::simd_mode>> { static constexpr int value = X::simd_mode::mode; };
+
 // one boolean conversion of the generated code, as the runtime prints it (see the protocol above)
 struct BoolCase { int fam; const int* tree; int tlen; int mode; int ha; int hb; };
 
@@ -56,6 +68,8 @@ struct Env {
   const int* tree = nullptr; int tlen = 0; int dest = 0; int form = 0;
   unsigned long lines = 0;
   int pb_tree[2] = {0, 0};
+  const char* asg_op = "asg"; bool mode_in_args = false;   // `asgx` lines (see the protocol above)
+  bool xmode = false;   // C08: `eboolx` lines, no batch lines
   bool light = false;   // the additional degrees: few single-evaluation lines per shape, the positions are covered by sweeps
 
   explicit Env(uint64_t seed) : rng(seed) {
@@ -115,8 +129,9 @@ struct Env {
   }
   // extra: rows of objects created by the statement (constructed object / the other owner after a detach)
   void end(int mode, const T* extra = nullptr) {
-    head("asg"); printf(" %d %d", form, dest); put_tree(); printf(" %zu", NH); put_words(before);
-    printf(" => %d", mode);
+    head(asg_op); printf(" %d %d", form, dest); if (mode_in_args) printf(" %d", mode);
+    put_tree(); printf(" %zu", NH); put_words(before);
+    if (mode_in_args) printf(" =>"); else printf(" => %d", mode);
     std::vector<T> after; snapshot(after); put_words(after);
     if (extra) put_row(extra);
     printf("\n"); lines++;
@@ -126,6 +141,11 @@ struct Env {
   void emit_bool(const int* t, int len, int kind, int mode, bool r) {
     tree = t; tlen = len;
     std::vector<T> s; snapshot(s);
+    if (xmode) {
+      head("eboolx"); printf(" %d %d", kind, mode); put_tree(); printf(" %zu", NH); put_words(s);
+      printf(" => %d\n", r ? 1 : 0); lines++;
+      return;
+    }
     head("ebool"); printf(" %d", kind); put_tree(); printf(" %zu", NH); put_words(s);
     printf(" => %d %d\n", mode, r ? 1 : 0); lines++;
   }
@@ -248,6 +268,7 @@ struct Env {
     // unrelated
     for (int rep = 0; rep < (light ? 1 : 2); rep++) { base(0); for (size_t cm = 0; cm < M; cm++) for (size_t i = 0; i < D; i++) set(t, cm, i, rnd_res(cm)); run("random"); }
     // every position (resp. the boundary-directed ones): differ in one / equal in one
+    if (xmode) return;     // the batch lines are defined for the shapes of the acceptance rules only
     std::vector<size_t> ps = (all_pos || N <= 160) ? all_positions() : boundary_positions();
     base(0); set_val(t, target); sweep(t, bc, 0, ps, ev);
     base(2); set_val(t, target); sweep(t, bc, 1, ps, ev);
